@@ -252,6 +252,44 @@ impl Bitstr {
 // Rext: crate::file::write_to_stdout (I/O): some result, the interpreter state is not an argument
 #[verifier::external_body] fn verif_write_stdout(buf: &std::borrow::Cow<'_, [u8]>) -> Xresult { unimplemented!() }
 //@use cursor.fns ::word_emit
+// Rext: position of the first differing bit, only reported inside the MatchError (iterator chain `bits().zip().position()`)
+#[verifier::external_body] fn verif_mismatch_pos(s: &Bitstr, pat: &Bitstr) -> usize { unimplemented!() }
+//@use cursor.fns ::word_magic
+
+// ---- nulbytestr: the bytes up to and including the first zero byte
+spec fn byte_zero(v: Seq<bool>, k: int) -> bool {
+    !v[8 * k] && !v[8 * k + 1] && !v[8 * k + 2] && !v[8 * k + 3] && !v[8 * k + 4] && !v[8 * k + 5] && !v[8 * k + 6] && !v[8 * k + 7]
+}
+// number of bytes taken when scanning from byte i: up to and including the first zero byte, or all of them
+spec fn nul_scan(v: Seq<bool>, i: int) -> int
+    decreases (if v.len() - 8 * i > 0 { v.len() - 8 * i } else { 0 })
+{
+    if i < 0 || 8 * i >= v.len() { if i < 0 { 0 } else { i } } else if byte_zero(v, i) { i + 1 } else { nul_scan(v, i + 1) }
+}
+// a full group is zero exactly when its eight bits are
+proof fn lemma_group_zero(s: Seq<u8>, pos: int, g: (u8, u32))
+    requires is_group(s, pos, 8, g)
+    ensures (g.0 == 0u8) <==> (!bit_at(s, pos) && !bit_at(s, pos + 1) && !bit_at(s, pos + 2) && !bit_at(s, pos + 3)
+        && !bit_at(s, pos + 4) && !bit_at(s, pos + 5) && !bit_at(s, pos + 6) && !bit_at(s, pos + 7))
+{
+    let x = g.0;
+    assert(x == 0u8 <==> ((x >> 7u8) & 1u8 != 1u8 && (x >> 6u8) & 1u8 != 1u8 && (x >> 5u8) & 1u8 != 1u8 && (x >> 4u8) & 1u8 != 1u8
+        && (x >> 3u8) & 1u8 != 1u8 && (x >> 2u8) & 1u8 != 1u8 && (x >> 1u8) & 1u8 != 1u8 && (x >> 0u8) & 1u8 != 1u8)) by (bit_vector);
+    assert(field_bit(x, 8, 0) == bit_at(s, pos + 0)); assert(field_bit(x, 8, 1) == bit_at(s, pos + 1));
+    assert(field_bit(x, 8, 2) == bit_at(s, pos + 2)); assert(field_bit(x, 8, 3) == bit_at(s, pos + 3));
+    assert(field_bit(x, 8, 4) == bit_at(s, pos + 4)); assert(field_bit(x, 8, 5) == bit_at(s, pos + 5));
+    assert(field_bit(x, 8, 6) == bit_at(s, pos + 6)); assert(field_bit(x, 8, 7) == bit_at(s, pos + 7));
+    assert(field_bit(x, 8, 0) == (((x >> 7u8) & 1u8) == 1u8));
+    assert(field_bit(x, 8, 1) == (((x >> 6u8) & 1u8) == 1u8));
+    assert(field_bit(x, 8, 2) == (((x >> 5u8) & 1u8) == 1u8));
+    assert(field_bit(x, 8, 3) == (((x >> 4u8) & 1u8) == 1u8));
+    assert(field_bit(x, 8, 4) == (((x >> 3u8) & 1u8) == 1u8));
+    assert(field_bit(x, 8, 5) == (((x >> 2u8) & 1u8) == 1u8));
+    assert(field_bit(x, 8, 6) == (((x >> 1u8) & 1u8) == 1u8));
+    assert(field_bit(x, 8, 7) == (((x >> 0u8) & 1u8) == 1u8));
+}
+//@use cursor.fns ::nulbytestr_read
+//@use cursor.fns ::nulbytestr_word
 
 // the data words of the word table (Rword)
 //@use words.fns ::load#w_u8
